@@ -166,6 +166,9 @@ def run_tlc(module, cfg, files=None, workers=None, timeout=600, simulate=None, d
         cmd = ["java", "-XX:+UseParallelGC" if gc == "parallel" else "-XX:+UseSerialGC", "-Xmx" + (heap or "3g"), "-Xss" + xss]
         if deque:
             cmd.append("-Dtlc2.tool.queue.IStateQueue=StateDeque")
+        # TLC unpacks its standard modules into java.io.tmpdir (one "tlc-*" directory per run, never removed): keep that in the scratch copy
+        os.makedirs(os.path.join(d, "jtmp"), exist_ok=True)
+        cmd.append("-Djava.io.tmpdir=" + os.path.join(d, "jtmp"))
         cmd += ["-cp", "/opt/veriftools/tla/tla2tools.jar:/opt/veriftools/tla/CommunityModules-deps.jar",
                 "tlc2.TLC", "-metadir", os.path.join(d, "meta"), "-workers", w, "-config", cfg]
         if simulate:
